@@ -543,10 +543,11 @@ func neoRound(t *testing.T, r *kit.Run, n, m, cases int) {
 func TestC24(t *testing.T) {
 	r := kit.Start(t, "C24", "exploration")
 	defer r.Finish()
-	r.Rule("ont: for every tracked-set size N: calibration (honest all-distinct k=0..N) then bookkeeper lists of shapes {subset around threshold, superset with foreign keys, one key repeated, few distinct + repeats, invalid/stolen signatures, honest quorum with shuffled/extra signatures, bookkeeper list longer than the signature list (0/1/T-1 signatures), signature list longer than the bookkeeper list (garbage/repeated/foreign/empty padding), random kind vectors with random truncation} through syncCrossChainMsg and ImportOuterTransfer; neo: for every (n,m): witnesses of shapes {honest, below, one key repeated, below+repeats, below+foreign/bad, other committee's script, same keys with 1-of-n script, random}; neo3/neo3legacy additionally: state-validator sets built over 2-4 approved registration rounds that re-submit the first / middle / last / a random tracked key (sometimes with a new key), then witnesses over the stored list in which every listed copy of a re-submitted key signs / distinct keys sign / one signature short; distinct = (router, N or (n,m), shape, kind vector, entry, outcome)")
+	r.Rule("ont: for every tracked-set size N: calibration (honest all-distinct k=0..N) then bookkeeper lists of shapes {subset around threshold, superset with foreign keys, one key repeated, few distinct + repeats, invalid/stolen signatures, honest quorum with shuffled/extra signatures, multi-epoch chains with messages at key heights and key height +-1 signed by the set in force / the set announced at that height / another epoch's set, bookkeeper list longer than the signature list (0/1/T-1 signatures), signature list longer than the bookkeeper list (garbage/repeated/foreign/empty padding), random kind vectors with random truncation} through syncCrossChainMsg and ImportOuterTransfer; neo: for every (n,m): witnesses of shapes {honest, below, one key repeated, below+repeats, below+foreign/bad, other committee's script, same keys with 1-of-n script, random}; neo3/neo3legacy additionally: state-validator sets built over 2-4 approved registration rounds that re-submit the first / middle / last / a random tracked key (sometimes with a new key), then witnesses over the stored list in which every listed copy of a re-submitted key signs / distinct keys sign / one signature short; distinct = (router, N or (n,m), shape, kind vector, entry, outcome)")
 	r.Assume("ont: the property does not fix 'the required number'; it is taken as the smallest k for which the router accepts an honest message signed by k distinct tracked members (calibrated per N on the running code; documented formula ceil(N/3) is recorded for comparison) and must be >= 1")
 	r.Assume("neo: the required number is the m of the tracked m-of-n consensus script; neo3/neo3legacy: the k for which an honest k-of-n witness of k distinct state validators is accepted (calibrated per n) and it must not be smaller than NEO N3's own quorum for designated state validators, n-(n-1)/3")
 	r.Assume("neo3 re-registration part: the model owns the expectation (tracked set = distinct registered keys D, required distinct signers = D-(D-1)/3); the stored list is read only to build the submitter's witness")
+	r.Assume("ont epochs part: the set tracked for a message at height h is the peer set recorded at the greatest key height strictly below h (as the property family states for Ontology headers; the block announcing a new set is produced by the old one) and ceil(n/3) distinct members must sign; both values are owned by the model")
 	r.Assume("signature validity is judged with ontology-crypto / neo-gogogo verification of each listed signature against each tracked member key")
 	r.Assume("only 'accepted => enough distinct tracked valid signers' is asserted; refusals of sufficient lists (e.g. out-of-order NEO signatures) are not violations")
 
@@ -557,6 +558,14 @@ func TestC24(t *testing.T) {
 		ontRound(t, r, n, perN, thresholds)
 	}
 	r.Set("ont_threshold_by_N", fmt.Sprint(thresholds))
+	for rep := 0; rep < r.N(40, 600); rep++ {
+		ontEpochRound(t, r, rep)
+	}
+	r.Require("ont_epoch_changes_installed", r.N(40, 600))
+	r.Require("ont_epoch_msgs_at-key-height", r.N(60, 900))
+	r.Require("ont_epoch_msgs_signed_by_set-announced-at-this-height", r.N(20, 300))
+	r.Require("ont_epoch_msgs_accepted_at_key_height", r.N(20, 300))
+	r.Require("ont_epoch_msgs_refused", r.N(60, 900))
 	// neo
 	maxNeo := r.N(7, 16)
 	perNeo := r.N(40, 150)
@@ -612,3 +621,130 @@ func TestC24(t *testing.T) {
 	r.Require("neo_refused", 50)
 	r.Require("neo_shape_one-key-repeated", 10)
 }
+
+// ontEpochRound: two or three tracked epochs with disjoint peer sets (genesis set A, a header at
+// key height H announcing B, optionally one at H2 announcing C), then messages at the key heights
+// and right next to them, signed by an honest quorum of the set in force, of the set announced AT
+// that height, or of another epoch's set. The model owns the expectation: the set tracked for a
+// message at height h is the one recorded at the greatest key height strictly below h (the block
+// that announces a new set is itself still produced by the old one) and ceil(n/3) distinct members
+// of it must have signed.
+func ontEpochRound(t *testing.T, r *kit.Run, rep int) {
+	rng := r.Rand(fmt.Sprintf("ont-epochs-%d", rep))
+	e := newEnv(t, rng, utils.ONT_ROUTER, ontChain, "ont")
+	g := uint32(1000)
+	sets := [][]*pk.Key{pk.NewKeys(rng, 1+rng.Intn(7)), pk.NewKeys(rng, 1+rng.Intn(7))}
+	if rng.Intn(2) == 0 {
+		sets = append(sets, pk.NewKeys(rng, 1+rng.Intn(7)))
+	}
+	keyHeights := []uint32{g}
+	gen := ontsynth.Header(g, ontsynth.Payload(sets[0], 0, nil), 1)
+	if rec := chains.SyncGenesis(e, ontChain, ontsynth.RawHeader(gen), nat.Operator(e.Validators)); !rec.Ok {
+		r.Inconclusive("ont epochs genesis: " + rec.Err)
+		return
+	}
+	for i := 1; i < len(sets); i++ {
+		h := keyHeights[i-1] + uint32(3+rng.Intn(5))
+		hd := ontsynth.Header(h, ontsynth.Payload(sets[i], h, nil), uint32(i))
+		hash := hd.Hash()
+		hd.Bookkeepers, hd.SigData = ontsynth.Split(ontsynth.Entries(rng, hash[:], sets[i-1], rep2(ontsynth.Valid, len(sets[i-1]))))
+		if rec := chains.SyncHeaders(e, ontChain, [][]byte{ontsynth.RawHeader(hd)}); !rec.Ok {
+			r.Inconclusive("ont epochs: honest key-height header refused: " + rec.Err)
+			return
+		}
+		if _, err := ont.GetHeaderByHeight(e.Service(), ontChain, h); err != nil {
+			r.Inconclusive("ont epochs: key-height header not stored")
+			return
+		}
+		keyHeights = append(keyHeights, h)
+		r.Count("ont_epoch_changes_installed", 1)
+	}
+	inForce := func(h uint32) int { // index of the set recorded at the greatest key height strictly below h
+		idx := -1
+		for i, k := range keyHeights {
+			if k < h {
+				idx = i
+			}
+		}
+		return idx
+	}
+	var heights []uint32
+	for _, k := range keyHeights[1:] {
+		heights = append(heights, k-1, k, k+1)
+	}
+	heights = append(heights, g+1)
+	rng.Shuffle(len(heights), func(a, b int) { heights[a], heights[b] = heights[b], heights[a] })
+	seen := map[uint32]bool{}
+	for _, h := range heights {
+		if seen[h] {
+			continue
+		}
+		seen[h] = true
+		app := inForce(h)
+		if app < 0 {
+			continue
+		}
+		atKey := false
+		for _, k := range keyHeights[1:] {
+			if k == h {
+				atKey = true
+			}
+		}
+		// wrong sets first (a stored message at a height shadows later submissions), then the set in force
+		order := rng.Perm(len(sets))
+		var tries []int
+		for _, i := range order {
+			if i != app {
+				tries = append(tries, i)
+			}
+		}
+		tries = append(tries, app)
+		for _, si := range tries {
+			signerSet := sets[si]
+			n := len(sets[app])
+			required := (n + 2) / 3
+			k := (len(signerSet) + 2) / 3 // an honest quorum of the signing set
+			if rng.Intn(3) == 0 {
+				k = len(signerSet)
+			}
+			w := &ontWorld{t: t, r: r, e: e, rng: rng, members: signerSet, ids: ontsynth.IDs(sets[app]), height: h - 1, tag: int(h)*10 + si + rep*100000}
+			via := "sync"
+			if rng.Intn(3) == 0 {
+				via = "import"
+			}
+			acc, distinct, _, replay, _ := w.submit(ontCase{kinds: rep2(ontsynth.Valid, k), via: via})
+			rel := "set-in-force"
+			if si != app {
+				rel = "other-epoch-set"
+				if si == app+1 && atKey {
+					rel = "set-announced-at-this-height"
+				}
+			}
+			pos := "inside-epoch"
+			if atKey {
+				pos = "at-key-height"
+			}
+			r.Eval(1)
+			r.Distinct("ont-epochs", len(sets), pos, rel, len(signerSet), n, via, acc)
+			r.Count("ont_epoch_msgs_"+pos, 1)
+			r.Count("ont_epoch_msgs_signed_by_"+rel, 1)
+			replay["key_heights"] = fmt.Sprint(keyHeights)
+			replay["signer_set_epoch_index"] = si
+			replay["epoch_in_force_index"] = app
+			if acc {
+				r.Count("ont_epoch_msgs_accepted", 1)
+				if atKey {
+					r.Count("ont_epoch_msgs_accepted_at_key_height", 1)
+				}
+				if distinct < required {
+					viol(r, "ont:crosschainmsg-checked-against-wrong-epoch",
+						fmt.Sprintf("message at height %d (key heights %v, %s) signed by the %s accepted via %s: %d distinct signer(s) of the %d-member set in force, %d required", h, keyHeights, pos, rel, via, distinct, n, required), replay)
+				}
+				break // a message is now stored at this height
+			}
+			r.Count("ont_epoch_msgs_refused", 1)
+		}
+	}
+}
+
+func rep2(k ontsynth.EntryKind, n int) []ontsynth.EntryKind { return rep(k, n) }
